@@ -45,7 +45,7 @@ Definition resolve (c : list (kind * list Z)) : list shape :=
 Definition mode_of (b : body) : mode := match b_mode b with 0 => MGlobal | 1 => MFunc | _ => MInit end.
 
 Definition phys (s : astate) : Z :=
-  Z.of_nat (a_loc s + fold_right (fun g acc => sn g + acc) 0 (a_segs s) + (length (a_segs s) - 1)).
+  Z.of_nat (fold_right (fun g acc => sn g + acc) 0 (a_segs s) + (length (a_segs s) - 1)).
 Definition exact (s : astate) : bool := forallb sx (a_segs s).
 
 Definition succ_pcs (code : list shape) (md : mode) (m : amap) (p : nat) : list nat :=
